@@ -157,6 +157,8 @@ func (c *Ctx) siteClass(ins ssa.Instruction) string {
 		return "makeslice"
 	case *ssa.MakeClosure:
 		return "closure " + x.Fn.Name()
+	case *ssa.Range:
+		return "range"
 	case *ssa.MakeChan:
 		return "makechan"
 	}
